@@ -12,6 +12,10 @@ model   : `dg1` (one-shot interface derived from the incremental one, for harnes
 oracle  : seq: the i-th result equals the stand-alone decoding of the i-th datagram (nothing merged, split or carried over), valid
           datagrams round-trip to the sent packet, every send produces exactly one datagram that deserializes to the packet;
           queue: returned datagrams are the accepted ones in order, once each.
+session 4: constructor options of every serializer (sers.vary, one-shot domain: any text encoding); packets whose serialization is
+          EMPTY (an empty datagram is a datagram), sent through the blocking socket transport and UDPNetworkClient and COUNTED on
+          the wire (`_wire_line`), received through every API; named-tuple struct packets with NUL bytes inside `Ns` fields;
+          well-formed pickles whose loading raises (one per exception class) between valid datagrams, bare and inside wrappers.
 """
 from __future__ import annotations
 
@@ -227,17 +231,40 @@ def _run_seq(case: dict) -> list[str]:
         me = socket.socket(socket.AF_INET, socket.SOCK_DGRAM)
         me.bind(("127.0.0.1", 0))
         me.connect(peer.getsockname())
+        peer.settimeout(3.0)
         ep = DatagramEndpoint(SocketDatagramTransport(me, retry_interval=1.0), proto)
         try:
             for d in datagrams:
                 peer.sendto(d, me.getsockname())
                 lines.append(_res_line(lambda: ep.recv_packet(timeout=3.0)))
+            for p in to_send:
+                ep.send_packet(sd.Wrapped(p) if conv else p)
+                lines.append(_wire_line(me, peer))
+        except (TimeoutError, socket.timeout) as e:
+            raise core.InfraError(f"loopback UDP datagram lost: {e}") from e
         finally:
             ep.close()
             peer.close()
     else:
         lines.extend(_run_udp(case, proto, datagrams, to_send, conv))
     return lines
+
+
+MARK = b"\x00\xffs2-end-of-send\xff\x00"
+
+
+def _wire_line(me: socket.socket, peer: socket.socket) -> str:
+    """what one send_packet() put on the wire: a marker datagram is sent through the SAME socket right after it (loopback keeps
+    the order of one sender's datagrams); everything the peer receives before the marker was produced by the send_packet() call —
+    zero datagrams is then an observation, not a time-out.  An empty UDP datagram is a datagram (recvfrom returns b"")."""
+    me.send(MARK)
+    got = []
+    while True:
+        d = peer.recvfrom(65536)[0]
+        if d == MARK:
+            break
+        got.append(d)
+    return f"sent {len(got)} " + " ".join(core.hexs(x) for x in got)
 
 
 def _run_udp(case: dict, proto, datagrams: list[bytes], to_send: list[Any], conv: bool) -> list[str]:
@@ -250,7 +277,10 @@ def _run_udp(case: dict, proto, datagrams: list[bytes], to_send: list[Any], conv
     lines: list[str] = []
     try:
         if case["api"] == "udp":
-            with UDPNetworkClient(peer.getsockname(), proto) as client:
+            sock = socket.socket(socket.AF_INET, socket.SOCK_DGRAM)
+            sock.bind(("127.0.0.1", 0))
+            sock.connect(peer.getsockname())
+            with UDPNetworkClient(sock, proto) as client:
                 addr = client.get_local_address()
                 me = (addr.host, addr.port)
                 for d in datagrams:
@@ -258,8 +288,7 @@ def _run_udp(case: dict, proto, datagrams: list[bytes], to_send: list[Any], conv
                     lines.append(_res_line(lambda: client.recv_packet(timeout=3.0)))
                 for p in to_send:
                     client.send_packet(sd.Wrapped(p) if conv else p)
-                    got = peer.recvfrom(65536)[0]
-                    lines.append(f"sent 1 {core.hexs(got)}")
+                    lines.append(_wire_line(sock, peer))
         else:
             async def main():
                 async with AsyncUDPNetworkClient(peer.getsockname(), proto) as client:
@@ -455,10 +484,12 @@ def oracle(case: dict, real: list[str]) -> str | None:
             if results[i] != exp:
                 return f"datagram #{i} made from packet {exp!r} was received as {results[i]!r}"
     sent = [ln for ln in real if ln.startswith("sent ")]
+    if len(sent) != len(case.get("send", [])):
+        return f"{len(case.get('send', []))} send_packet calls, {len(sent)} observed"
     for ln, v in zip(sent, case.get("send", [])):
         parts = ln.split()
         if parts[1] != "1":
-            return f"send_packet produced {parts[1]} datagrams"
+            return f"send_packet({sd.pkt_line(sers.dec_val(v))[4:]}) produced {parts[1]} datagrams (api {case['api']})"
         back = _standalone(case, b"" if parts[2] == "-" else bytes.fromhex(parts[2]))
         p = sers.dec_val(v)
         e = _exp_received(case, p)
@@ -508,6 +539,10 @@ def _gen_spec(rng) -> dict:
         spec["debug"] = True
     if "inner" in spec and rng.random() < 0.3:
         spec["inner"] = {**spec["inner"], "debug": True}
+    # session 4: constructor options (encodings incl. utf-16 / idna…, error handlers, JSON encoder / decoder knobs, struct formats
+    # and byte orders, named-tuple fields, keyed checksums, compression levels, pickle protocols, inner serializers of wrappers)
+    if spec["k"] not in ("sepinc", "fixinc") and rng.random() < 0.55:
+        sers.vary(rng, spec, oneshot=True)
     return spec
 
 
@@ -562,6 +597,12 @@ def _gen_packet(rng, spec: dict) -> Any:
                 return p
     if spec["k"] == "fixinc":
         return bytes(rng.randrange(256) for _ in range(spec["size"]))
+    if rng.random() < 0.12:
+        # a packet whose one-shot serialization is EMPTY ("" for the line serializer, also inside base64 / behind a pass-through
+        # serializer): an empty datagram is a datagram
+        p = sers.empty_packet(spec)
+        if p is not None:
+            return p
     return sers.gen_packet(rng, spec, 8)
 
 
@@ -594,14 +635,12 @@ def _gen_seq(rng, api: str) -> dict:
             d = rng.choice([b"[" * 3000 + b"]" * 3000, b'{"a":' * 2000 + b"1" + b"}" * 2000, b"9" * 5000, b"[" + b"9" * 4400 + b"]"])
             i = rng.randint(0, len(datagrams))
             datagrams.insert(i, d); valid.insert(i, None); kinds.insert(i, "extreme")
-    if api in ("udp", "audp"):
-        # an empty UDP datagram is legal but indistinguishable from "nothing" for some stacks: keep them non-empty
-        keep = [i for i, d in enumerate(datagrams) if d]
-        datagrams = [datagrams[i] for i in keep]; valid = [valid[i] for i in keep]; kinds = [kinds[i] for i in keep]
-        if not datagrams:
-            p = _gen_packet(rng, spec)
-            datagrams, valid, kinds = [ser.serialize(p) or b"x"], [None], ["random"]
-    send = [sers.enc_val(_gen_packet(rng, spec)) for _ in range(rng.randint(0, 2))]
+    # (an empty UDP datagram is legal and delivered on loopback — verified with plain sockets and with both clients — so empty
+    #  datagrams stay in the sequence for the socket APIs too, in both directions.  One exception, reported in the notes: the
+    #  asyncio transport of CPython 3.12 drops an empty sendto(), so AsyncUDPNetworkClient.send_packet("") sends nothing.)
+    send = [sers.enc_val(_gen_packet(rng, spec)) for _ in range(rng.randint(0, 2 if api in ("sync", "async") else 4))]
+    if api == "audp" and not sers.REPORTED:
+        send = [v for v in send if ser.serialize(sers.dec_val(v))]
     conv = rng.random() < 0.2
     return {"kind": "seq", "spec": spec, "api": api, "datagrams": [d.hex() for d in datagrams], "valid": valid, "kinds": kinds,
             "send": send, "conv": conv}
@@ -645,6 +684,60 @@ def corpus() -> list[dict]:
                 out.append({"kind": "seq", "spec": spec, "api": api, "datagrams": [ser.serialize(t).hex() for t in texts],
                             "valid": [sers.enc_val(t) for t in texts], "kinds": ["valid"] * len(texts),
                             "send": [sers.enc_val(t) for t in texts], "conv": api == "async"})
+    out += _session4_corpus()
+    return out
+
+
+def _session4_corpus() -> list[dict]:
+    """(a) packets whose one-shot serialization is EMPTY between ordinary ones, sent and received through every API (scripted
+    transports, the blocking socket transport, both UDP clients): each send_packet puts exactly one datagram on the wire;
+    (b) named-tuple struct packets with NUL bytes INSIDE the `Ns` fields (text and bytes fields), lone surrogates under
+    surrogateescape, strip on/off — sent and received"""
+    ev = sers.enc_val
+    out = []
+    line = {"k": "line", "newline": "LF", "keep_end": False, "encoding": "ascii", "limit": 64}
+    for spec, packets in ((line, ["first", "", "second", "", "", "last"]),
+                          ({"k": "b64", "inner": line, "alphabet": "urlsafe", "checksum": False, "separator": "0d0a", "limit": 64}, ["a", "", "b", ""]),
+                          ({"k": "autosep", "sep": "0d0a", "limit": 64, "check": True}, [b"x", b"", b"", b"y"]),
+                          ({"k": "line", "newline": "CRLF", "keep_end": True, "encoding": "utf-8", "errors": "surrogateescape", "limit": 64, "debug": True},
+                           ["", "\udcff", ""])):
+        ser = _build(spec)
+        for api in ("sync", "async", "sync-socket", "udp", "audp"):
+            send = [p for p in packets if api != "audp" or sers.REPORTED or ser.serialize(p)]
+            out.append({"kind": "seq", "spec": spec, "api": api, "datagrams": [ser.serialize(p).hex() for p in packets],
+                        "valid": [ev(p) for p in packets], "kinds": ["valid"] * len(packets), "send": [ev(p) for p in send],
+                        "conv": api in ("async", "udp")})
+    person = sers.nt_class(["name", "nickname", "age"])
+    route = sers.nt_class(["ident", "address", "key"])
+    for strip in (True, False):
+        for spec, packets in (
+            ({"k": "ntstruct", "fields": [["name", "12s"], ["nickname", "8s"], ["age", "H"]], "endian": "", "encoding": "utf-8",
+              "errors": "surrogateescape", "strip": strip},
+             [person("ab\0cd", "x", 1), person("\0hidden", "\0\0y", 65535), person("John", "", 20), person("caf\udce9", "\udcff\0\udc80", 7)]),
+            ({"k": "ntstruct", "fields": [["ident", "I"], ["address", "4s"], ["key", "8s"]], "endian": "<", "encoding": None, "strip": strip},
+             [route(2, b"\x7f\x00\x00\x01", b"\x00k\x00\x00e\xffy!"), route(0, b"\x00\x00\x00\x01", b"12345678"), route(7, b"abcd", b"\x00\x00\x00\x00\x00\x00\x00z")])):
+            ser = _build(spec)
+            for api in ("sync", "async", "udp"):
+                out.append({"kind": "seq", "spec": spec, "api": api, "datagrams": [ser.serialize(p).hex() for p in packets],
+                            "valid": [ev(p) for p in packets], "kinds": ["valid"] * len(packets), "send": [ev(p) for p in packets],
+                            "conv": api == "async"})
+    # (c) well-formed pickles whose loading raises (one per exception class, sers.HOSTILE_PICKLES) between valid datagrams, bare and
+    # inside every wrapper: each is exactly one parse error and its neighbours are unaffected
+    import base64
+    import bz2
+    import zlib
+    pk = {"k": "pickle"}
+    wrap = [(pk, lambda d: d), ({"k": "pickle", "debug": True, "proto": 2, "classes": True}, lambda d: d),
+            ({"k": "b64", "inner": pk, "alphabet": "urlsafe", "checksum": False, "separator": "0d0a", "limit": 65536}, base64.urlsafe_b64encode),
+            ({"k": "zlib", "inner": pk, "debug": True}, zlib.compress), ({"k": "bz2", "inner": pk}, bz2.compress)]
+    for spec, enc in wrap:
+        ser = _build(spec)
+        good = ser.serialize([1, "a"])
+        ds, valid, kinds = [], [], []
+        for name, blob in sers.HOSTILE_PICKLES.items():
+            ds += [good.hex(), enc(blob).hex()]; valid += [ev([1, "a"]), None]; kinds += ["valid", "hostile"]
+        for api in ("sync", "async", "udp"):
+            out.append({"kind": "seq", "spec": spec, "api": api, "datagrams": ds, "valid": valid, "kinds": kinds, "send": [], "conv": False})
     return out
 
 
@@ -654,8 +747,8 @@ def generate(rng, tier: str, boost: int):
         yield _gen_seq(rng, rng.choice(["sync", "async"]))
     for _ in range((1500 if tier == "quick" else 40000) * boost):
         yield _gen_queue(rng)
-    for _ in range((30 if tier == "quick" else 400) * boost):
-        yield _gen_seq(rng, rng.choice(["udp", "audp"]))
+    for _ in range((160 if tier == "quick" else 1200) * boost):
+        yield _gen_seq(rng, rng.choice(["udp", "udp", "sync-socket", "sync-socket", "audp"]))
     # datagrams near the maximum UDP payload must not be truncated by the receive buffer size
     for size in ([1000, 16384, 16385, 40000, 65000] if tier == "quick" else [1000, 8192, 16384, 16385, 20000, 32768, 40000, 65000, 65507]):
         for api in ("udp", "audp", "sync-socket"):
